@@ -393,6 +393,8 @@ def apalache_leg(c):
     shutil.copy(os.path.join(tlc.SPEC, 'apalache', 'APA_Limiter.tla'), wd)
     runs = [('Init => IndInv', ['--cinit=CInit', '--init=Init', '--inv=IndInv', '--length=0'], True),
             ("IndInv /\\ Next => IndInv'", ['--cinit=CInit', '--init=IndInit', '--inv=IndInv', '--length=1'], True),
+            ("IndInv /\\ NextSetBack => IndInv' (the clock may also be set back)",
+             ['--cinit=CInit', '--init=IndInit', '--next=NextSetBack', '--inv=IndInv', '--length=1'], True),
             ('induction step with the deviation (must fail)', ['--cinit=CInitDeviation', '--init=IndInit',
                                                                '--inv=IndInv', '--length=1'], False)]
     out = []
